@@ -15,6 +15,8 @@ and `contract_needed` shows that `run_sim` really relies on it.
 Not covered here (oracle only, `harness/props/c16.py`): finiteness of the numbers, one column per element.
 -/
 import WntrModel.Lemmas.RunLoop
+import WntrModel.Lemmas.RunLoopShape
+import WntrModel.Gen.RunLoopShape
 
 namespace Wntr.RunLoop
 
@@ -86,8 +88,8 @@ theorem enter_cases (w : W) (simTime prevTime : Int) :
       decide ((init (RN := RN) (RL := RL) w simTime prevTime).simTime > cfg.duration)) = true
   · right
     simp only [h, if_true, true_and]
-    simp only [init, Bool.and_eq_true, Bool.not_eq_true', beq_eq_false_iff_ne, decide_eq_true_eq] at h
-    exact ⟨h.1, h.2⟩
+    simp only [init, Bool.and_eq_true, Bool.not_eq_true', beq_eq_false_iff_ne] at h
+    exact ⟨h.1, of_decide_eq_true h.2⟩
   · left; simp only [h]; rfl
 
 theorem enter_TInv {simTime prevTime : Int} (w : W) (hS : Start cfg simTime prevTime)
@@ -162,15 +164,44 @@ theorem run_terminates {simTime prevTime : Int} (w : W) (hS : Start cfg simTime 
     ∀ n, fuel cfg (enter (W := W) (RN := RN) (RL := RL) cfg w simTime prevTime).simTime
         (enter (W := W) (RN := RN) (RL := RL) cfg w simTime prevTime).prevTime ≤ n →
       iter wd cfg n (enter cfg w simTime prevTime) = runSim wd cfg w simTime prevTime := by
-  have inv := init_TInv (RN := RN) (RL := RL) cfg w hS
-  have hp : potential cfg (max cfg.duration simTime) (enter (RN := RN) (RL := RL) cfg w simTime prevTime) <
-      (fuel cfg (enter (W := W) (RN := RN) (RL := RL) cfg w simTime prevTime).simTime
-        (enter (W := W) (RN := RN) (RL := RL) cfg w simTime prevTime).prevTime : Nat) :=
-    pot_lt_fuel (max cfg.duration simTime - (enter (W := W) (RN := RN) (RL := RL) cfg w simTime prevTime).prevTime)
-      cfg.maxTrials.toNat (by have := inv.prev_lt; have := inv.le_D; omega)
-  have hh : (runSim wd cfg w simTime prevTime).halt ≠ none :=
-    halts_within wd cfg hS.hyd_pos (Int.le_max_left _ _) _ _ (by simp [init]) inv hC hp
+  have hh : (runSim wd cfg w simTime prevTime).halt ≠ none := by
+    unfold runSim
+    by_cases hr : (enter (RN := RN) (RL := RL) cfg w simTime prevTime).halt = none
+    · have inv := enter_TInv (RN := RN) (RL := RL) cfg w hS hr
+      refine halts_within wd cfg hS.hyd_pos (Int.le_max_left _ _) _ _ hr inv hC ?_
+      have hpl := inv.prev_lt
+      have hle := inv.le_D
+      have e1 := (enter_times (RN := RN) (RL := RL) cfg w simTime prevTime).1
+      have hres : (enter (RN := RN) (RL := RL) cfg w simTime prevTime).resolve = false := by
+        rcases enter_cases (RN := RN) (RL := RL) cfg w simTime prevTime with e | ⟨e, _⟩ <;> rw [e] <;> rfl
+      have := pot_lt_fuel (max cfg.duration simTime - (enter (W := W) (RN := RN) (RL := RL) cfg w simTime prevTime).prevTime)
+        cfg.maxTrials.toNat (by omega)
+      simp only [potential, hres, Bool.false_eq_true, if_false, fuel, e1, M]
+      exact this
+    · rw [iter_of_halted wd cfg hr]; exact hr
   exact ⟨hh, (runs_iff_iter wd cfg _ _).2 ⟨_, rfl, hh⟩, fun n hn => iter_stable wd cfg hh hn⟩
+
+/-- **continued_completed_noop**: `run_sim` on a model that was already simulated past the duration (a continued run,
+`sim_time ≠ 0`, with `sim_time > duration`) makes no solver call, reports nothing and returns empty tables with
+`error_code` None -- whatever the world. -/
+theorem continued_completed_noop (w : W) (simTime prevTime : Int) (h0 : simTime ≠ 0) (hd : simTime > cfg.duration) :
+    (runSim wd cfg w simTime prevTime).halt = some .finished ∧
+    (runSim wd cfg w simTime prevTime).nSolve = 0 ∧
+    (runSim wd cfg w simTime prevTime).result = some ⟨.finished, [], [], []⟩ ∧
+    (runSim wd cfg w simTime prevTime).w = w := by
+  have e : enter (RN := RN) (RL := RL) cfg w simTime prevTime =
+      { (init w simTime prevTime : St W RN RL) with halt := some .finished } := by
+    rcases enter_cases (RN := RN) (RL := RL) cfg w simTime prevTime with e | ⟨e, _⟩
+    · exfalso
+      have : (enter (RN := RN) (RL := RL) cfg w simTime prevTime).halt = some .finished := by
+        simp [enter, init, h0, hd]
+      rw [e] at this; simp [init] at this
+    · exact e
+  have hr : runSim wd cfg w simTime prevTime = { (init w simTime prevTime : St W RN RL) with halt := some .finished } := by
+    unfold runSim
+    rw [iter_of_halted wd cfg (by rw [e]; simp), e]
+  rw [hr]
+  exact ⟨rfl, rfl, rfl, rfl⟩
 
 /-- a fresh run of `duration ≥ 0` seconds needs at most `(duration+1)·(trials+1) + 1` passes -/
 theorem fuel_fresh (_hd : 0 ≤ cfg.duration) :
@@ -418,6 +449,78 @@ theorem failure_prefix (wd' : World W RN RL) (s0 : St W RN RL) :
       rw [iter_of_halted wd cfg hs, hne]
       exact ⟨List.prefix_refl _, List.prefix_refl _, List.prefix_refl _⟩
 
+/-! ### 5. the theorems are about the program read off the current source
+
+`Gen/RunLoopShape.lean` is regenerated on every check run from the Python `ast` of `WNTRSimulator.run_sim` (statement
+order, every branch with its `raise` / error flag / `break` / `continue`, trial reset and increment, the report-grid test,
+the end test, the early return).  `execS` interprets that program; `Lemmas/RunLoopShape.lean` proves that the
+interpretation of `refShape` is `step` / `runSim`.  A reordered statement or a dropped `break` in `run_sim` changes the
+generated term, `generated_shape_is_ref` stops being provable, and with it every theorem below. -/
+
+/-- the loop skeleton generated from the current `run_sim` is the skeleton the model was written from -/
+theorem generated_shape_is_ref : Gen.shape = refShape := by decide
+
+theorem generated_step_is_model (s : St W RN RL) : stepS Gen.shape wd cfg s = step wd cfg s := by
+  rw [generated_shape_is_ref]; exact stepS_ref wd cfg s
+
+theorem generated_run_is_model (w : W) (simTime prevTime : Int) :
+    runSimS Gen.shape wd cfg w simTime prevTime = runSim wd cfg w simTime prevTime := by
+  rw [generated_shape_is_ref]; exact runSimS_ref wd cfg w simTime prevTime
+
+/-- `run_terminates`, for the interpreted generated program -/
+theorem generated_run_terminates {simTime prevTime : Int} (w : W) (hS : Start cfg simTime prevTime)
+    (hC : Contract wd cfg (enter cfg w simTime prevTime)) :
+    (runSimS Gen.shape wd cfg w simTime prevTime).halt ≠ none ∧
+    ∀ n, fuel cfg (enterS (W := W) (RN := RN) (RL := RL) Gen.shape cfg w simTime prevTime).simTime
+        (enterS (W := W) (RN := RN) (RL := RL) Gen.shape cfg w simTime prevTime).prevTime ≤ n →
+      iterS Gen.shape wd cfg n (enterS Gen.shape cfg w simTime prevTime) = runSimS Gen.shape wd cfg w simTime prevTime := by
+  rw [generated_run_is_model, generated_shape_is_ref, enterS_ref]
+  obtain ⟨a, _, c⟩ := run_terminates wd cfg w hS hC
+  exact ⟨a, fun n hn => by rw [iterS_ref]; exact c n hn⟩
+
+/-- `times_strictly_increasing_on_grid` + `result_tables_share_index`, for the generated program's final state -/
+theorem generated_result_well_formed {simTime prevTime : Int} (w : W) (hS : Start cfg simTime prevTime)
+    (hC : Contract wd cfg (enter cfg w simTime prevTime)) :
+    let F := runSimS Gen.shape wd cfg w simTime prevTime
+    F.times.Pairwise (· < ·) ∧ F.times = F.accepted.filter (reportNow cfg) ∧
+    F.nodeRows.length = F.times.length ∧ F.linkRows.length = F.times.length ∧ F.halt ≠ some .raiseAlreadySolved := by
+  intro F
+  have hF : F = runSim wd cfg w simTime prevTime := generated_run_is_model wd cfg w simTime prevTime
+  rw [hF]
+  obtain ⟨a, _, c, _, _, f, g, h⟩ := times_strictly_increasing_on_grid wd cfg w hS hC
+    (fuel cfg (enter (W := W) (RN := RN) (RL := RL) cfg w simTime prevTime).simTime
+      (enter (W := W) (RN := RN) (RL := RL) cfg w simTime prevTime).prevTime)
+  exact ⟨a, c, f, g, h⟩
+
+/-- `failure_stops_and_flags`, for one pass of the generated program -/
+theorem generated_failure_stops_and_flags (s : St W RN RL) (hs : s.halt = none)
+    (hf : (solvePhase wd cfg (presolvePhase wd s)).2.ok = false) :
+    (stepS Gen.shape wd cfg s).halt = some (if cfg.convErr then .raiseNoConv else .flagNoConv) ∧
+    (stepS Gen.shape wd cfg s).times = s.times ∧ (stepS Gen.shape wd cfg s).nodeRows = s.nodeRows ∧
+    (stepS Gen.shape wd cfg s).linkRows = s.linkRows := by
+  rw [generated_step_is_model]
+  obtain ⟨a, b, c, d, _⟩ := failure_stops_and_flags wd cfg s hs hf
+  exact ⟨a, b, c, d⟩
+
+/-- `trial_overflow_stops_and_flags`, for one pass of the generated program -/
+theorem generated_trial_overflow_stops_and_flags (s : St W RN RL) (hs : s.halt = none)
+    (hok : (solvePhase wd cfg (presolvePhase wd s)).2.ok = true)
+    (hch : (wd.post (solvePhase wd cfg (presolvePhase wd s)).1.w).2 = true)
+    (hov : (solvePhase wd cfg (presolvePhase wd s)).1.trial + 1 > cfg.maxTrials) :
+    (stepS Gen.shape wd cfg s).halt = some (if cfg.convErr then .raiseTrials else .flagTrials) ∧
+    (stepS Gen.shape wd cfg s).times = s.times := by
+  rw [generated_step_is_model]
+  obtain ⟨a, b, _⟩ := trial_overflow_stops_and_flags wd cfg s hs hok hch hov
+  exact ⟨a, b⟩
+
+/-- `continued_completed_noop`, for the generated program (it contains the early return) -/
+theorem generated_completed_noop (w : W) (simTime prevTime : Int) (h0 : simTime ≠ 0) (hd : simTime > cfg.duration) :
+    (runSimS Gen.shape wd cfg w simTime prevTime).result = some ⟨.finished, [], [], []⟩ ∧
+    (runSimS Gen.shape wd cfg w simTime prevTime).nSolve = 0 := by
+  rw [generated_run_is_model]
+  obtain ⟨_, b, c, _⟩ := continued_completed_noop wd cfg w simTime prevTime h0 hd
+  exact ⟨c, b⟩
+
 /-! ### non-vacuity: concrete runs of the trace world (fresh start, hyd = report = 2 s, duration = 6 s) -/
 
 def exCfg : Cfg := { hyd := 2, report := 2, duration := 6, maxTrials := 2, backup := false, convErr := false }
@@ -461,5 +564,18 @@ example : ∀ n, n ≤ 22 → PresolveOK traceWorld
   revert hn s
   revert n
   decide
+
+/-- a continued run that starts beyond the duration: no solver call, empty tables (the trace is not touched) -/
+example : ((runSim traceWorld exCfg ⟨[8], [.singular], [true], 0, 0⟩ 8 6).halt,
+           (runSim traceWorld exCfg ⟨[8], [.singular], [true], 0, 0⟩ 8 6).nSolve,
+           (runSim traceWorld exCfg ⟨[8], [.singular], [true], 0, 0⟩ 8 6).times) = (some .finished, 0, []) := by decide
+
+/-- a continued run that starts at the duration still makes its step; a failure on the continuation is flagged -/
+example : ((runSim traceWorld exCfg ⟨[6], [.singular], [], 0, 0⟩ 6 4).halt,
+           (runSim traceWorld exCfg ⟨[6], [.converged], [], 0, 0⟩ 6 4).times) = (some .flagNoConv, [6]) := by decide
+
+/-- the interpreter on the generated program computes the same run as the hand-written loop (here by evaluation) -/
+example : (runSimS Gen.shape traceWorld exCfg ⟨[0, 2, 3, 4, 6], [.converged, .iterLimit], [], 0, 0⟩ 0 0).halt =
+    some .flagNoConv := by decide
 
 end Wntr.RunLoop
